@@ -15,6 +15,7 @@ package legacypool
 //@   serves C41
 //@   ensures m.items[types.txNonce(tx)] == tx
 //@   ensures forall k int :: k != types.txNonce(tx) ==> m.items[k] == old(m.items[k])
+//@   ensures len(m.cache) == 0 && cap(m.cache) == 0
 //@   modifies m.items[..], m.cache, *m.index
 
 // cost of the transactions txs[k:], summed
